@@ -126,7 +126,39 @@ pub struct St {
     asset: AssetState,
     /// asset state whose tear sheet was started with `TearSheetAssetGenerator::init(first balance)`
     asset_init: Option<AssetState>,
+    /// the equity curve of each of the two asset states = the balances it ADMITTED (see `AssetCurve`)
+    asset_curve: [AssetCurve; 2],
     ts: TearSheetGenerator,
+}
+
+/// The equity curve of an `AssetState` is the sequence of balances it admitted. Which snapshots it admits is its own
+/// freshness policy and not part of the statement - with one limit the check keeps: a snapshot STRICTLY newer than the
+/// balance held is always a point of the curve. A snapshot carrying the time of the balance already held (or older)
+/// may be applied (it is then a further point at the same instant) or ignored (balance AND tear sheet unchanged).
+/// `gen` is a real `DrawdownGenerator` fed with exactly the admitted points (equal to the path's raw generator as
+/// long as every point was admitted; a curve without some of its same-instant points is itself a curve of the pass,
+/// so R1/R2 of that generator are judged on its own path); `emitted` = what its `update` returned.
+#[derive(Clone, Default)]
+struct AssetCurve {
+    gen_: DrawdownGenerator,
+    emitted: Vec<Drawdown>,
+    last: Option<Balance>,
+}
+impl AssetCurve {
+    /// `held` = the state's balance before the snapshot, `now` = after it. Returns the curve's current drawdown.
+    fn observe(&mut self, held: Option<Timed<Balance>>, now: Option<Timed<Balance>>, balance: Balance, t: DateTime<Utc>) -> Option<Drawdown> {
+        let applied = now == Some(Timed::new(balance, t));
+        let may_be_ignored = held.map(|h| t <= h.time).unwrap_or(false);
+        // (a strictly newer snapshot that was not applied stays on the expected curve: the sheet is then reported as
+        // not following the curve / not showing the balance, as before)
+        if applied || !may_be_ignored {
+            if let Some(d) = self.gen_.update(Timed::new(balance.total, t)) {
+                self.emitted.push(d);
+            }
+            self.last = Some(balance);
+        }
+        self.gen_.clone().generate()
+    }
 }
 
 /// Expected drawdown: depth = num/den exactly (den = the positive peak), with its times.
@@ -418,6 +450,7 @@ impl SeqModel for M {
             emitted: Vec::new(),
             asset: AssetState::new(Asset::new("usdt", "USDT"), TearSheetAssetGenerator::default(), None),
             asset_init: None,
+            asset_curve: Default::default(),
             ts: TearSheetGenerator::init(t0()),
         }
     }
@@ -512,17 +545,21 @@ impl SeqModel for M {
             }
         }
 
-        // ---- (b) asset tear sheet through the real producer AssetState::update_from_balance
+        // ---- (b) asset tear sheet through the real producer AssetState::update_from_balance. The sheet is judged
+        // against the asset's own equity curve = the balances the state admitted (`AssetCurve`)
         let balance = balance_of(val, i);
+        let held = s.asset.balance;
         s.asset.update_from_balance(Snapshot(&AssetBalance { asset: AssetIndex(0), balance, time_exchange: t }));
+        let curve_current = s.asset_curve[0].observe(held, s.asset.balance, balance, t);
         let sheet = s.asset.statistics.clone().generate();
         if !s.sheet_diverged[0] {
-            s.sheet_diverged[0] = check_sheet("asset-tear-sheet", &s.emitted, &gen_current, &sheet.drawdown, &sheet.drawdown_max, &sheet.drawdown_mean, out, &ctxt);
+            s.sheet_diverged[0] = check_sheet("asset-tear-sheet", &s.asset_curve[0].emitted, &curve_current, &sheet.drawdown, &sheet.drawdown_max, &sheet.drawdown_mean, out, &ctxt);
         }
-        if sheet.balance_end != Some(balance) {
+        if sheet.balance_end != s.asset_curve[0].last {
             out.push(("C18/asset-tear-sheet/balance-end".into(), format!("balance_end={:?}; {}", sheet.balance_end, ctxt())));
         }
         // the same through an asset state built around its first balance (TearSheetAssetGenerator::init)
+        let held = s.asset_init.as_ref().and_then(|a| a.balance);
         match &mut s.asset_init {
             None => {
                 let first = Timed::new(balance, t);
@@ -530,11 +567,12 @@ impl SeqModel for M {
             }
             Some(a) => a.update_from_balance(Snapshot(&AssetBalance { asset: AssetIndex(0), balance, time_exchange: t })),
         }
+        let curve_current = s.asset_curve[1].observe(held, s.asset_init.as_ref().unwrap().balance, balance, t);
         let sheet = s.asset_init.as_ref().unwrap().statistics.clone().generate();
         if !s.sheet_diverged[1] {
-            s.sheet_diverged[1] = check_sheet("asset-tear-sheet-init", &s.emitted, &gen_current, &sheet.drawdown, &sheet.drawdown_max, &sheet.drawdown_mean, out, &ctxt);
+            s.sheet_diverged[1] = check_sheet("asset-tear-sheet-init", &s.asset_curve[1].emitted, &curve_current, &sheet.drawdown, &sheet.drawdown_max, &sheet.drawdown_mean, out, &ctxt);
         }
-        if sheet.balance_end != Some(balance) {
+        if sheet.balance_end != s.asset_curve[1].last {
             out.push(("C18/asset-tear-sheet-init/balance-end".into(), format!("balance_end={:?}; {}", sheet.balance_end, ctxt())));
         }
 
@@ -633,7 +671,7 @@ pub fn run(ctx: &Ctx) -> Outcome {
         assumptions: vec![
             "curves have a positive first value (hence positive running maxima) and non-decreasing times; later values may be <= 0".into(),
             "a decline is a decline however small relative to its peak (pass fine: ~1e-9) and whatever the number of decimals of the values; durations up to months (pass long-gaps)".into(),
-            "a curve is its SEQUENCE of points: a point at the same instant as the previous one is a further point (AssetState applies a balance snapshot with an equal timestamp)".into(),
+            "a curve is its SEQUENCE of points: a point at the same instant as the previous one is a further point for the generators and the PnL sheet. The equity curve of an AssetState is the sequence of balances it admitted: a snapshot strictly newer than the balance held must be admitted; one carrying the same instant may be applied or ignored (balance and tear sheet together)".into(),
             "the end time of an unfinished (current) drawdown is not specified by the statement and is not checked".into(),
             "a point equal to the running maximum does not set a new maximum ('the next point that exceeds it')".into(),
             "mean duration is an integer number of ms: tolerance k ms for k drawdowns; depth tolerance 1e-24 (mean 1e-20)".into(),
